@@ -12,7 +12,19 @@
       `idxOfDist_beyond_ieee`. Only order facts of IEEE comparisons (`FMO.*`) are used, no arithmetic.
       Tie behaviour: the index found is the LAST `k` with `lengths[k] == d` when `d` is hit (all later lengths are `> d`),
       otherwise the first `k` with `d < lengths[k]`; so for `0 < i`: `lengths[i−1] < d < lengths[i]` or `lengths[i] == d`.
-  (2) **`positionAt_dist_err_float32`**.
+  (2) **`positionAt_dist_err_float32`**: for a curve (`path.length = lengths.length`, `Sorted lengths`, `Bounded19` vertices) and
+      `lengths[0] <= d <= last`, `interpolate_vertices path lengths (idx_of_dist lengths d) d` is `path[0]` (hit of the first
+      length), `path[i−1]` (degenerate segment) or within `interpBound` per coordinate of `p0 + w (p1 − p0)` with the exact
+      weight `w = (d − d0)/(d1 − d0) ∈ [0, 1]` of the bracketing segment: the hypotheses `d0 <= d`, `d <= d1`, `hdeg` and the
+      index facts of `interpolate_err_float32` are derived from the search. `positionAt_dist_on_polyline_float32`: hence
+      within `1/4` px per coordinate of a point of the polyline.
+      The four no-overflow conditions (`SegFinite`) REMAIN a hypothesis, restricted to the one non-degenerate bracketing
+      segment. They are believed derivable for `0 <= d0`, finite `d1` and `Bounded19` end points (`segFinite_statement`, not
+      proved: the library has "no overflow from a bound on the exact value" only for `f64 ⊗ ⊘`; the route through the
+      monotonicity lemmas of Lemmas/FloatArithMono.lean needs, per operation, the NaN side conditions and `±0` cases).
+  (3) **`positionAt_progress_err_float32`**: the same for `position_at path lengths progress` itself, any non-NaN progress,
+      `lengths[0] <= 0 <= last`, `last` finite (`d = clamp(progress,0,1)·last ∈ [0, last]`, Props/C19IeeeBound.lean).
+  Non-vacuity on the closed curve `(100,200) → (107,224) → (100,200)`, lengths `[0, 25, 50]`, kernel-evaluated.
 -/
 import RosuModel.Props.C19IeeeErr
 import RosuModel.Props.C19Ieee
@@ -271,12 +283,20 @@ theorem idxOfDist_bracket_float (lengths : List Float) (hs : Sorted lengths) (d 
 /-! ## (2) `interpolate_vertices ∘ idx_of_dist`: the position for a distance inside the curve -/
 
 /-- the no-overflow side conditions of `interpolate_err_float32` for the segment `[p0, p1]`, `[d0, d1]` and the distance `d`:
-the two result coordinates, the `f64` weight and the `f64` denominator are finite. NOT derived here (see the file header of
-the report: for `Bounded19` vertices and finite non-negative lengths they do hold, but the derivation needs "no overflow from
-a bound on the exact value" for `f32 ⊕`, `f64 ⊖` and `as f32`, which Lemmas/FloatErrRange.lean has for `⊗`, `⊘` only). -/
+the two result coordinates, the `f64` weight and the `f64` denominator are finite. NOT derived here (`segFinite_statement`): for `Bounded19` vertices and finite non-negative lengths they should
+hold, but the derivation needs "no overflow from a bound on the exact value" for `f32 ⊕ ⊖ ⊗`, `f64 ⊖` and `as f32`, which
+Lemmas/FloatErrRange.lean has for `f64 ⊗ ⊘` only. -/
 def SegFinite (p0 p1 : Pos Float32) (d d0 d1 : Float) : Prop :=
   (interpPos p0 p1 d d0 d1).x.isFinite = true ∧ (interpPos p0 p1 d d0 d1).y.isFinite = true ∧
   ((d - d0) / (d1 - d0)).isFinite = true ∧ (d1 - d0).isFinite = true
+
+/-- NOT PROVED (the missing piece that would remove the hypothesis `hfin` of `positionAt_dist_err_float32` for curves with
+`0 <= lengths[0]` and a finite last length): the no-overflow conditions follow from the bracket, the bounds on the vertices
+and a finite `d1`. (`|x0 + (x1 − x0) w| ≤ 3·2¹⁹`, `0 ≤ d1 ⊖ d0 ≤ d1`, `0 ≤ (d ⊖ d0) ⊘ (d1 ⊖ d0) ≤ 1`.) -/
+def segFinite_statement : Prop :=
+  ∀ (p0 p1 : Pos Float32) (d d0 d1 : Float), C16.Bounded19 p0 → C16.Bounded19 p1 →
+    Scalar.le (0 : Float) d0 = true → Scalar.le d0 d = true → Scalar.le d d1 = true → d1.isFinite = true →
+    Scalar.le (Scalar.abs (d0 - d1)) (Scalar.eps : Float) = false → SegFinite p0 p1 d d0 d1
 
 /-- **C19 on IEEE floats: the position `interpolate_vertices path lengths (idx_of_dist lengths d) d`** (what `position_at`
 evaluates after `progress_to_dist`) for a curve `path`, `lengths` of equal length, `lengths` weakly sorted numbers, vertices
